@@ -527,7 +527,8 @@ class TensorDictBase(MutableMapping):
             return key in self.keys()
         if isinstance(key, tuple):
             key = unravel_key(key)
-            if not key:
+            if isinstance(key, tuple) and not key:
+                # only the empty tuple is refused: ("",) unravels to the (valid) empty string
                 raise RuntimeError(
                     "key must be a NestedKey (a str or a possibly tuple of str)."
                 )
